@@ -92,6 +92,6 @@ def queries(tier):
     return qs
 
 MANIFEST = {
-    "text": "Bounded symbolic check of the real req.c (and rep.c/xreq.c/xrep.c kernels): event skeletons from sock_init through the real entry points; replies are injected by id class (current id of either context, stale, any other 32-bit id, any id without the request bit, short); a monitor checks that a receive completes only with the reply to the context's current request and at most once, that non-matching replies are freed and disturb nobody, and the ESTATE rules.",
+    "text": "Bounded symbolic check of the real req.c (and rep.c/xreq.c/xrep.c kernels): event skeletons from sock_init through the real entry points; replies are injected by id class (current id of either context, stale, any other 32-bit id, any id without the request bit, short); a monitor checks that a receive completes only with the reply to the context's current request and at most once, that non-matching replies are freed and disturb nobody, and the ESTATE rules. Also requests abandoned before they were ever transmitted (cancelled / superseded with no peer connected): their id is retired too; nng_ctx_close of a REP context with operations pending.",
     "note": "aio framework, messages and id map are verified models; events atomic; 2 contexts / 2 pipes.",
 }
